@@ -529,6 +529,17 @@ func (e *FnEnc) loopHeader(b *ssa.BasicBlock, li *loopInfo, fwd []*ssa.BasicBloc
 			continue
 		}
 		for _, in := range lb.Instrs {
+			if mu, ok := in.(*ssa.MapUpdate); ok {
+				if mk, ok := mu.Map.(*ssa.MakeMap); ok && !li.blocks[mk.Block()] {
+					if mv, ok := e.vals[mk]; ok {
+						mt := mk.Type().Underlying().(*types.Map)
+						for _, hn := range []string{e.sorts().MapDom(mt.Key()).Name, e.sorts().MapVal(mt.Key(), mt.Elem()).Name, MapLen.Name} {
+							li.modRefs[hn] = append(li.modRefs[hn], modT{ref: mv.T})
+						}
+					}
+				}
+				continue
+			}
 			st, ok := in.(*ssa.Store)
 			if !ok {
 				continue
